@@ -1,7 +1,11 @@
 //! The per-property check table.
+use crate::crash::{self, CrashPoint, Eval};
+use crate::disk::CrashSpec;
 use crate::gen;
+use crate::model::Model;
 use crate::ops::*;
-use crate::runner::{self, RunResult};
+use crate::rng::Rng;
+use crate::runner::{self, RunResult, ViolationRec};
 use crate::world::World;
 
 #[derive(Clone, Copy, Debug, PartialEq, Eq)]
@@ -24,35 +28,207 @@ pub struct CheckDef {
     pub want_probes: &'static [&'static str],
 }
 
-fn run_history(scn: &Scenario, prop: &str, _explore: bool) -> RunResult {
+fn exec_history(scn: &Scenario) -> (World, u64) {
     let t0 = crate::shim::real_ms();
     runner::setup_env(scn);
     let root = runner::scratch_root();
     let mut w = World::new(&root, scn);
     w.run(&scn.ops);
+    (w, t0)
+}
+
+fn run_history(scn: &Scenario, prop: &str, _explore: bool) -> RunResult {
+    let (mut w, t0) = exec_history(scn);
     let mut r = runner::collect(&mut w, scn, prop, t0);
     r.sample = Some(runner::sample_of(scn, &w));
     r
 }
 
+fn tier_of(scn: &Scenario) -> Tier {
+    if scn.knobs.get("thorough").copied().unwrap_or(0) != 0 { Tier::Thorough } else { Tier::Quick }
+}
+
+/// C02 / C03 / C04: run the history fault-free under the recorder, then explore crash points.
+fn run_crash(scn: &Scenario, prop: &str, explore: bool) -> RunResult {
+    let (mut w, t0) = exec_history(scn);
+    w.finish_segment();
+    let tier = tier_of(scn);
+    let power = prop == "C03";
+    let nested = prop == "C04";
+    let root = w.root.clone();
+    let mut ev = Eval::new(&root);
+    let mut r = Rng::new(scn.seed, "crash-points");
+    let mut found: Vec<(crate::world::Violation, CrashPoint)> = Vec::new();
+    // model at the start of each segment
+    let seg_start_model = |w: &World, si: usize| -> Model {
+        let first = w.recs.iter().find(|x| x.seg == si).map(|x| x.i).unwrap_or(0);
+        if first == 0 { Model::default() } else { w.snaps.get(first - 1).cloned().unwrap_or_default() }
+    };
+    let history_broken = w.violations.iter().any(|v| v.props.iter().any(|p| p == "C01" || p == "PANIC"));
+    let props: Vec<&str> = vec![prop];
+    if history_broken {
+        // the fault-free history itself misbehaved: that is C01's business, not a crash result
+    } else if let Some(cp) = &scn.post {
+        if let Some(seg) = w.segs.get(cp.seg) {
+            let cut = match &cp.spec {
+                CrashSpec::Process { cut, partial } => *cut + usize::from(partial.is_some()),
+                CrashSpec::Power { cut, .. } => *cut,
+            };
+            let (cands, may_fail) = crash::allowed_states(&w, seg, cut, &seg_start_model(&w, cp.seg));
+            let ne = if nested && cp.nested.is_empty() { Some((&mut r, 3usize)) } else { None };
+            found.extend(ev.eval(seg, cp, &cands, may_fail, &props, ne));
+        }
+    } else if explore {
+        let per_seg = match (tier, nested) {
+            (Tier::Quick, false) => 28,
+            (Tier::Quick, true) => 10,
+            (Tier::Thorough, false) => 400,
+            (Tier::Thorough, true) => 60,
+        };
+        for si in 0..w.segs.len() {
+            let seg = &w.segs[si];
+            let all = tier == Tier::Thorough && crash::candidate_cuts(&seg.log).len() <= 400;
+            let specs = if power { crash::sample_power(&seg.log, &mut r, per_seg, false) } else { crash::sample_process(&seg.log, &mut r, per_seg, all, false) };
+            let start = seg_start_model(&w, si);
+            for spec in specs {
+                let cut = match &spec {
+                    CrashSpec::Process { cut, partial } => *cut + usize::from(partial.is_some()),
+                    CrashSpec::Power { cut, .. } => *cut,
+                };
+                let (cands, may_fail) = crash::allowed_states(&w, seg, cut, &start);
+                if crash::position(&seg.log, cut).0.is_some() {
+                    ev.stats.inflight_cuts += 1;
+                }
+                let cp = CrashPoint { seg: si, spec, nested: vec![] };
+                let ne = if nested { Some((&mut r, 3usize)) } else { None };
+                let vs = ev.eval(seg, &cp, &cands, may_fail, &props, ne);
+                let stop = !vs.is_empty();
+                found.extend(vs);
+                if stop && found.len() >= 3 {
+                    break;
+                }
+            }
+            if found.len() >= 3 {
+                break;
+            }
+        }
+    }
+    let mut res = runner::collect(&mut w, scn, prop, t0);
+    res.images = ev.stats.images + ev.stats.nested_images;
+    let st = &ev.stats;
+    for (k, v) in [
+        ("crash_images", st.images),
+        ("crash_opens_ok", st.opens_ok),
+        ("crash_open_failed_inside_create", st.opens_failed_allowed),
+        ("crash_partial_syscall", st.partial_cuts),
+        ("crash_inflight_cuts", st.inflight_cuts),
+        ("power_images", st.power_images),
+        ("power_torn_write", st.torn),
+        ("power_dropped_writes", st.dropped_writes),
+        ("power_lost_rename", st.lost_rename),
+        ("recoveries_recorded", st.recovered_records),
+        ("nested_crash_images", st.nested_images),
+    ] {
+        res.probes.insert(k.to_string(), v);
+    }
+    if power {
+        for (k, v) in [("power_loss", st.power_images), ("torn_write", st.torn), ("lost_write", st.dropped_writes), ("lost_rename", st.lost_rename)] {
+            if v > 0 {
+                *res.faults_fired.entry(k.to_string()).or_default() += v;
+            }
+        }
+    } else {
+        if st.images > 0 {
+            *res.faults_fired.entry("process_crash".into()).or_default() += st.images;
+        }
+        if st.partial_cuts > 0 {
+            *res.faults_fired.entry("partial_syscall".into()).or_default() += st.partial_cuts;
+        }
+        if st.nested_images > 0 {
+            *res.faults_fired.entry("crash_during_recovery".into()).or_default() += st.nested_images;
+        }
+    }
+    let mut hs = st.image_hashes.clone();
+    hs.sort();
+    hs.dedup();
+    res.states.extend(hs);
+    res.nontrivial = w.probes.acked_mutations > 0 && st.opens_ok > 0;
+    res.violations = found
+        .iter()
+        .filter(|(v, _)| v.props.iter().any(|p| p == prop))
+        .map(|(v, _)| ViolationRec::from(v))
+        .collect();
+    if let Some((_, cp)) = found.iter().find(|(v, _)| v.props.iter().any(|p| p == prop)) {
+        let mut s = scn.clone();
+        s.post = Some(cp.clone());
+        res.repro = Some(s);
+    }
+    res.inconclusive = history_broken;
+    res.sample = Some(serde_json::json!({"history": runner::sample_of(scn, &w), "crash_images": st.images, "nested": st.nested_images, "example_crash": found.first().map(|(_, c)| serde_json::to_value(c).unwrap())}));
+    res
+}
+
 fn gen_c01(seed: u64, tier: Tier) -> Scenario {
     gen::gen_history(seed, if tier == Tier::Quick { 24 } else { 40 }, true, false)
 }
+fn gen_crash(seed: u64, tier: Tier) -> Scenario {
+    let mut s = gen::gen_history(seed, if tier == Tier::Quick { 10 } else { 18 }, true, true);
+    if tier == Tier::Thorough {
+        s.knobs.insert("thorough".into(), 1);
+    }
+    s
+}
 
 pub const RULE_HISTORY: &str = "seeded random histories (swarm mix of op kinds, payload classes, WAL steering); a run is non-trivial iff >=1 mutation was acknowledged and >=1 full model comparison ran on a reopened handle; distinct = distinct (op-kind count buckets, fault kinds fired, rare-state probes hit) classes among non-trivial runs";
+pub const RULE_CRASH: &str = "seeded random histories executed once under the syscall recorder; crash images are derived from the log (quick: stratified sample of cuts per segment incl. partial last syscall; thorough: every cut when the segment has <=400 mutating syscalls), each opened with the real Memvid::open and compared with the reference model; a run is non-trivial iff >=1 mutation was acknowledged and >=1 crash image opened and was compared; distinct = distinct (op-kind buckets, fault kinds, probes) classes among non-trivial runs";
 
 pub fn all() -> Vec<CheckDef> {
-    vec![CheckDef {
-        id: "C01",
-        level: "exploration",
-        quick_s: 45,
-        thorough_s: 600,
-        gen: gen_c01,
-        run: run_history,
-        rule: RULE_HISTORY,
-        assumptions: &["reference model of put/update/delete/commit/drop/open semantics (sim/src/model.rs)", "chunk split taken from the library's public preview_chunks"],
-        want_probes: &["auto_checkpoint", "replay_on_open", "chunked_puts"],
-    }]
+    vec![
+        CheckDef {
+            id: "C01",
+            level: "exploration",
+            quick_s: 45,
+            thorough_s: 600,
+            gen: gen_c01,
+            run: run_history,
+            rule: RULE_HISTORY,
+            assumptions: &["reference model of put/update/delete/commit/drop/open semantics (sim/src/model.rs)", "chunk split taken from the library's public preview_chunks"],
+            want_probes: &["auto_checkpoint", "replay_on_open", "chunked_puts"],
+        },
+        CheckDef {
+            id: "C02",
+            level: "fault_enumeration",
+            quick_s: 50,
+            thorough_s: 900,
+            gen: gen_crash,
+            run: run_crash,
+            rule: RULE_CRASH,
+            assumptions: &["process-crash model: every completed syscall on the memory's directory persists; the syscall at the cut may be applied partially", "reference model as in C01"],
+            want_probes: &["crash_images", "crash_inflight_cuts", "crash_partial_syscall"],
+        },
+        CheckDef {
+            id: "C03",
+            level: "fault_enumeration",
+            quick_s: 50,
+            thorough_s: 900,
+            gen: gen_crash,
+            run: run_crash,
+            rule: RULE_CRASH,
+            assumptions: &["power-loss model: per inode, content at its last fsync plus an arbitrary subset of later writes (optionally one torn); renames/unlinks durable only after a directory fsync (later ones survive as a prefix); a new file's directory entry is durable once the file was fsynced (weak reading)"],
+            want_probes: &["power_images", "power_torn_write", "power_dropped_writes"],
+        },
+        CheckDef {
+            id: "C04",
+            level: "fault_enumeration",
+            quick_s: 50,
+            thorough_s: 900,
+            gen: gen_crash,
+            run: run_crash,
+            rule: RULE_CRASH,
+            assumptions: &["process-crash model inside Memvid::open's recovery, nested up to depth 3; the uninterrupted recovery of the same image is the reference"],
+            want_probes: &["recoveries_recorded", "nested_crash_images"],
+        },
+    ]
 }
 
 pub fn find(id: &str) -> Option<CheckDef> {
